@@ -1,4 +1,5 @@
 //@host src/io_loop/mod.rs
+//@quick (generic sweep without wall-clock dependence: also runs in the quick tier, labelled bounded)
 // C13 bounded stand-in: every history of up to 5 events on one channel drawn from
 //   listener set-up (return listener: registered / registered-then-receiver-dropped / re-registered; same for the confirm listener),
 //   server Basic.Return with a body of 0..=3 frames, server Basic.Ack / Basic.Nack (single or multiple),
